@@ -4,6 +4,25 @@
 //! Inside these modules the name `std` resolves to the simulator's shadow (see seams.rs) and
 //! `println!`/`print!` write to the run's captured stdout.
 
+/// (round 13) Could the generator programs be compiled into the simulator? `run.sh` falls back to a
+/// build with feature `nogens` when they cannot (a corner of `std` or a dependency the seams do
+/// not cover): the check then skips every simulation batch, says so, and judges the real binaries.
+pub const AVAILABLE: bool = cfg!(not(feature = "nogens"));
+
+#[cfg(feature = "nogens")]
+pub mod layout {
+    pub fn __gensim_entry() {
+        panic!("generate_layout is not compiled into this build of the simulator");
+    }
+}
+#[cfg(feature = "nogens")]
+pub mod likely {
+    pub fn __gensim_entry() {
+        panic!("generate_likelysubtags is not compiled into this build of the simulator");
+    }
+}
+
+#[cfg(not(feature = "nogens"))]
 #[allow(dead_code, unused_imports, unused_macros, clippy::all)]
 pub mod layout {
     mod std {
@@ -53,6 +72,7 @@ pub mod layout {
     }
 }
 
+#[cfg(not(feature = "nogens"))]
 #[allow(dead_code, unused_imports, unused_macros, clippy::all)]
 pub mod likely {
     mod std {
